@@ -192,7 +192,7 @@ theorem command_line_rejections :
 
 /-- rejection does not depend on where the offending argument stands -/
 theorem rejection_is_order_free (a b : List Str)
-    (h : Args.SameUpToFamilyOrder (a.map Args.lex) (b.map Args.lex)) :
+    (h : Args.SameUpToFamilyOrder (Args.lexAll a) (Args.lexAll b)) :
     (Args.parseArgs a).isNone = (Args.parseArgs b).isNone := by
   rw [Args.parseArgs_order_independent a b h]
 
